@@ -23,12 +23,14 @@ RegCCR == [t |-> "name", app |-> 0, code |-> 0, req |-> FALSE, name |-> "CCR", h
 RegCCA == [t |-> "name", app |-> 0, code |-> 0, req |-> FALSE, name |-> "CCA", hid |-> 2]
 RegULR == [t |-> "idx", app |-> 16777251, code |-> 316, req |-> TRUE, name |-> "", hid |-> 3]
 RegALL == [t |-> "all", app |-> 0, code |-> 0, req |-> FALSE, name |-> "", hid |-> 4]
+\* "DWA" is not a reserved key: with the watchdog off the application's own handler for watchdog answers stays
+RegDWA == [t |-> "name", app |-> 0, code |-> 0, req |-> FALSE, name |-> "DWA", hid |-> 5]
 \* the same handlers registered by index only (answer index and catch-all index included)
 RegCCRi == [t |-> "idx", app |-> 4, code |-> 272, req |-> TRUE, name |-> "", hid |-> 1]
 RegCCAi == [t |-> "idx", app |-> 4, code |-> 272, req |-> FALSE, name |-> "", hid |-> 2]
-RegsOf(cfg) == CASE cfg \in {"all", "noaddr"} -> <<RegCCR, RegCCA, RegULR, RegALL>>
+RegsOf(cfg) == CASE cfg \in {"all", "noaddr"} -> <<RegCCR, RegCCA, RegULR, RegDWA, RegALL>>
                  [] cfg = "idx"    -> <<RegCCRi, RegCCAi, RegULR, RegALL>>
-                 [] cfg = "noall"  -> <<RegCCR, RegCCA, RegULR>>
+                 [] cfg = "noall"  -> <<RegCCR, RegCCA, RegULR, RegDWA>>
                  [] cfg = "onlyall" -> <<RegALL>>
 \* handler ids of the override attempts ("CER","CEA","DWR" by name; base CER/CEA/DWR by index): must never fire
 OverrideHids == {91, 92, 93, 94, 95, 96}
@@ -40,7 +42,9 @@ AppMsg(m) == CASE m = "ccr" -> [msg |-> [app |-> 4, code |-> 272, req |-> TRUE],
                \* the same with the E (error) bit set: an error answer, and a request carrying R+E
                [] m = "ccr_e" -> [msg |-> [app |-> 4, code |-> 272, req |-> TRUE], short |-> "CC"]
                [] m = "raa_e" -> [msg |-> [app |-> 0, code |-> 258, req |-> FALSE], short |-> "RA"]
-IsApp(m) == m \in {"ccr", "cca", "ulr", "rar", "ccr_e", "raa_e"}
+               \* a watchdog answer: an application message like any other unless the client runs the watchdog
+               [] m = "dwa" -> [msg |-> [app |-> 0, code |-> 280, req |-> FALSE], short |-> "DW"]
+IsApp(m) == m \in {"ccr", "cca", "ulr", "rar", "ccr_e", "raa_e", "dwa"}
 CerKinds == {"cer_ok", "cer_bad", "cer_noid", "cer_sec", "cer_ok_wfail", "cer_sec_ccr"}
 \* cer_sec_ccr: a CER that is refused (in-band security) with an application request right behind it in the
 \* same fragment: the request is already buffered when the connection is closed and must not reach a handler
